@@ -202,24 +202,49 @@ def finish(prop, tier, seed, P, jobs, results, servers, t0):
     rc = 0
     rdir = os.environ.get('VERIF_REPLAY_DIR') or os.path.join(ROOT, 'replays')
     tree = None
+    # minimise every group (in parallel, one server each), then confirm each in a fresh child
+    shr = {}
+
+    def do_shrink(key, serv):
+        j, r, v = groups[key]['first']
+        shr[key] = serv.call(dict(id='shrink', shrink=dict(prop=prop, batch=j['batch'], choices=r['choices'],
+                                                           property=prop, rule=key[0], signature=key[1])))
+
+    byclass = collections.defaultdict(list)
+    for s_ in servers:
+        byclass[s_.hclass].append(s_)
+    used = collections.Counter()
+    ths = []
+    for key in sorted(groups):
+        j = groups[key]['first'][0]
+        pool = byclass[j['hclass']]
+        serv = pool[used[j['hclass']] % len(pool)]
+        used[j['hclass']] += 1
+        t = threading.Thread(target=do_shrink, args=(key, serv), daemon=True)
+        t.start()
+        ths.append(t)
+    for t in ths:
+        t.join()
     for (rule, sig), g in sorted(groups.items()):
         j, r, v = g['first']
-        serv = next(s for s in servers if s.hclass == j['hclass'])
-        sh = serv.call(dict(id='shrink', shrink=dict(prop=prop, batch=j['batch'], choices=r['choices'],
-                                                     property=prop, rule=rule)))
+        sh = shr.get((rule, sig)) or {}
         fin = sh.get('result') or r
-        vv = next((x for x in fin.get('violations') or [] if x['property'] == prop and x['rule'] == rule), v)
+        vv = next((x for x in fin.get('violations') or [] if x['property'] == prop and x['rule'] == rule and x['signature'] == sig), None)
+        if vv is None:
+            harness_errors.append((j['seed'], j['batch'], f'violation {rule}/{sig} found in a chunked run did not reproduce in a fresh child: '
+                                   f'isolation failure of the harness ({sh.get("harness_error", "")})'))
+            continue
         replay = dict(property=prop, batch=j['batch'], hashseed=j['hclass'], run_seed=j['seed'], verif_seed=seed,
                       choices=sh.get('choices', r['choices']), unminimised_choices_len=len(r['choices']),
                       violation=dict(rule=rule, signature=vv['signature'], message=vv['message']),
                       event_log_digest=fin.get('digest'), ops=fin.get('ops') or fin.get('sample'),
-                      shrink_runs=sh.get('shrink_runs'))
+                      shrink_runs=sh.get('shrink_runs'), tree_hash=tree_hash())
         name = f"{prop}-{rule}-{re.sub(r'[^A-Za-z0-9_]+', '_', vv['signature'])[:40]}.json"
         path = os.path.join(rdir, name)
         write_json(path, replay)
         k = match_known(known, dict(property=prop, rule=rule, signature=vv['signature']))
         if k:
-            out_lines.append(f"KNOWN-FINDING: property={prop} {rule} {vv['signature']} ({g['count']} runs) {k.get('description', '')[:120]} replay={path}")
+            out_lines.append(f"KNOWN-FINDING: property={prop} {rule} {vv['signature']} ({g['count']} runs) {k.get('description', '')[:160]} replay={path}")
         else:
             out_lines.append(f"VIOLATION property={prop} replay={path}")
             out_lines.append(f"  rule={rule} signature={vv['signature']} runs={g['count']} :: {vv['message'][:300]}")
